@@ -30,6 +30,9 @@
 (*  DbMark       db_polygon: the mark of one sample.                        *)
 (*  Subdivide, Staircase  refinements giving polygons with hundreds of      *)
 (*               vertices (collinear vertices, many horizontal edges).      *)
+(*  HullChain, HullCode  convex hull of a lattice point set as an exact     *)
+(*               polygon (monotone chain) and as a point set (half-planes);  *)
+(*               DbHullMark = selection by convex hull (db_selhull).         *)
 (***************************************************************************)
 EXTENDS Integers, Sequences, FiniteSets, TLC
 
@@ -265,6 +268,59 @@ Staircase(p, k) ==
         ELSE IF r % 2 = 0 THEN <<ax + t * dx, ay + t * dy>>
         ELSE IF i % 2 = 1 THEN <<ax + (t + 1) * dx, ay + t * dy>>
         ELSE <<ax + t * dx, ay + (t + 1) * dy>>]
+
+-----------------------------------------------------------------------------
+(* Convex hulls (Polygons::createFromDb, db_selhull,                          *)
+(* Db::addSelectionFromDbByConvexHull).  S is a finite set of lattice points, *)
+(* not all on one line (otherwise the hull is not a polygon).                 *)
+
+LexLE(a, b) == a[1] < b[1] \/ (a[1] = b[1] /\ a[2] <= b[2])
+NonDegenerate(S) == \E a, b, c \in S : Orient(a, b, c) # 0
+
+RECURSIVE SortPts(_)
+SortPts(S) == IF S = {} THEN <<>>
+              ELSE LET m == CHOOSE x \in S : \A y \in S : LexLE(x, y)
+                   IN <<m>> \o SortPts(S \ {m})
+Reverse(s) == [i \in 1..Len(s) |-> s[Len(s) + 1 - i]]
+
+\* the hull as an exact polygon: Andrew's monotone chain in integers (lower chain over the points in
+\* lexicographic order, upper chain over the reverse order; a point is kept only on a strict left
+\* turn, so that the polygon is strictly convex, counter-clockwise, without collinear vertices)
+RECURSIVE PopRight(_, _)
+PopRight(h, pt) == IF Len(h) >= 2 /\ Orient(h[Len(h) - 1], h[Len(h)], pt) <= 0
+                   THEN PopRight(SubSeq(h, 1, Len(h) - 1), pt)
+                   ELSE Append(h, pt)
+HalfChain(pts) == LET F[i \in 0..Len(pts)] == IF i = 0 THEN <<>> ELSE PopRight(F[i-1], pts[i])
+                  IN F[Len(pts)]
+HullChain(S) == LET pts == SortPts(S)
+                    lower == HalfChain(pts)
+                    upper == HalfChain(Reverse(pts))
+                IN SubSeq(lower, 1, Len(lower) - 1) \o SubSeq(upper, 1, Len(upper) - 1)
+
+\* the hull as a point set, declaratively: the intersection of the closed half-planes to the left of
+\* the directed lines through two points of S that leave no point of S strictly on their right.
+\* 1 strictly inside, 0 strictly outside, 2 on the boundary (excluded by the property)
+SupportPairs(S) == {pr \in S \X S : pr[1] # pr[2] /\ \A c \in S : Orient(pr[1], pr[2], c) >= 0}
+HullCodeSP(sp, q) == IF \E pr \in sp : Orient(pr[1], pr[2], q) < 0 THEN 0
+                     ELSE IF \A pr \in sp : Orient(pr[1], pr[2], q) > 0 THEN 1 ELSE 2
+HullCode(S, q) == HullCodeSP(SupportPairs(S), q)
+
+\* the same decision taken on the polygon (the geometric truth of the first part of this module)
+PolyCode(p, q) == IF OnBoundary(p, q) THEN 2 ELSE IF RefInside(p, q) THEN 1 ELSE 0
+
+\* what makes h THE hull polygon of S
+IsHullOf(h, S) ==
+  /\ SimplePolygon(h) /\ Area2(h) > 0
+  /\ \A i \in 1..Len(h) : h[i] \in S /\ Orient(Prv(h, i), h[i], Nxt(h, i)) > 0
+  /\ \A c \in S : PolyCode(h, c) # 0
+
+\* hull of the ACTIVE samples of a data base (samples: sequence of points, active: set of indices)
+ActivePts(samples, active) == {samples[i] : i \in active}
+
+\* db_selhull / Db::addSelectionFromDbByConvexHull: mark of a sample of the target data base.  Every
+\* sample is examined, whatever its previous selection ("a sample, initially masked, can be masked OFF
+\* as it belongs to the convex hull"): the mark does not depend on prevActive.
+DbHullMark(prevActive, code) == code
 
 -----------------------------------------------------------------------------
 (* Integer affine maps (exact images; RefInside must be invariant)           *)
